@@ -646,16 +646,21 @@ def explicit_exec_paths(tt):
 
 
 def deleted_final_paths(tt):
+    """Final paths of trans ids that end without contents (deleted, or named by
+    create_path and never given contents): the names PreviewTree._path2trans_id may
+    resolve to instead of the entry that really is at that path."""
     from breezy.transform import FinalPaths
 
     fp = FinalPaths(tt)
     out = set()
-    for trans_id in tt._removed_contents:
-        if trans_id not in tt._new_contents:
-            try:
+    for trans_id in sorted(set(tt._removed_contents) | set(tt._new_name)):
+        if trans_id in tt._new_contents:
+            continue
+        try:
+            if tt.final_kind(trans_id) is None:
                 out.add(fp.get_path(trans_id))
-            except Exception:  # noqa: BLE001
-                pass
+        except Exception:  # noqa: BLE001
+            pass
     return out
 
 
@@ -949,7 +954,10 @@ def _execute(sim, plan):
             continue
         text = f"versioned entry {p!r}: preview {pv.get(p)!r} / applied {qv.get(p)!r}"
         in_moved_dir = any((p.startswith(d + "/") or tp.startswith(td + "/")) for d, k in moved.items() if k == "directory" for tp in [moved_from.get(p, p)] for td in [moved_from.get(d, d)])
-        if fmt == "git" and p in reversioned and qv.get(p) is None:
+        if fmt == "git" and p in reversioned:
+            # one family, two sites: _generate_index_changes ignores _versioned (apply adds the
+            # file only if it is also renamed/rewritten) and final_entry returns None for a file
+            # the old index does not know (the preview's entry listing omits it either way)
             add("git:version-existing-file-ignored", text)
         elif fmt == "git" and (in_moved_dir or any(p.startswith(td + "/") for td in moved_from.values())):
             add("git:child-of-moved-directory", text)
